@@ -13,8 +13,14 @@ strings and numbers (the only objects the units interpret); the normalised tree 
   R4c D[k] if k in D else V                          ->  D.get(k, V)                (dicts)
   R4d [f(v) for v in X] if X else []                 ->  [f(v) for v in X]
   R4e f"lit{E}" (no conversion / format)             ->  "lit" + E                  (E a string)
+  R4f list(d.keys()) / max(d.keys()) / ..            ->  list(d) / max(d) / ..          (dicts)
   R5  x = x                                          ->  (dropped)
-  R5b if C: t = A else: t = B   (one simple name)    ->  t = A if C else B
+  R5b if C: T = A else: T = B   (the same target)     ->  T = A if C else B
+  R5c if C: assert A, M         (nothing else)       ->  assert not C or A, M       (with not (x is not None) -> x is None)
+  R5d if len(X) > 0: / X if len(X) > 0 else          ->  if X: / X if X else        (containers, in a test position only)
+  R5e if E == c1: .. elif E == c2: .. else: ..       ->  branches ordered by the constant (E pure, constants distinct)
+  R5g if C: ..; return/raise  else: REST             ->  if C: ..; return/raise ; REST  (the else of a branch that cannot fall through)
+  R5h if C: <assignments> else: <assignments> ; return E   ->  the return at the end of both branches
   R6  t = E ; S   where t is bound once in the function, read only inside S (for `if`/`for`: only inside the test /
       the iterable) and E is built from names, attributes, subscripts, constants, operators and calls to pure functions
                                                      ->  S[t := E]                  (a temporary for the next statement)
@@ -75,6 +81,11 @@ def _pure(e) -> bool:
 class _Expr(ast.NodeTransformer):
     def visit_Call(self, node):
         self.generic_visit(node)
+        # R4f: iterating a dict's keys: list(d.keys()) / max(d.keys()) / ... -> list(d) / max(d)
+        if isinstance(node.func, ast.Name) and node.func.id in ("list", "max", "min", "sorted", "set", "tuple", "len", "sum", "any", "all") \
+                and len(node.args) >= 1 and isinstance(node.args[0], ast.Call) and isinstance(node.args[0].func, ast.Attribute) \
+                and node.args[0].func.attr == "keys" and not node.args[0].args and not node.args[0].keywords:
+            node.args[0] = node.args[0].func.value
         # R1
         if _is_call(node, "list") and (isinstance(node.args[0], ast.ListComp) or _is_call(node.args[0], "list")):
             return node.args[0]
@@ -104,6 +115,8 @@ class _Expr(ast.NodeTransformer):
         elif isinstance(t, ast.Compare) and len(t.ops) == 1 and isinstance(t.ops[0], ast.IsNot) \
                 and isinstance(t.comparators[0], ast.Constant) and t.comparators[0].value is None:
             node = ast.IfExp(test=ast.Compare(left=t.left, ops=[ast.Is()], comparators=t.comparators), body=node.orelse, orelse=node.body)
+        if _is_len_pos(node.test):
+            node = ast.IfExp(test=node.test.left.args[0], body=node.body, orelse=node.orelse)
         t = node.test
         # R4b
         if isinstance(node.body, ast.Constant) and node.body.value is True and isinstance(node.orelse, (ast.Compare, ast.BoolOp, ast.UnaryOp)):
@@ -162,6 +175,47 @@ def _stores(node, name):
     return k
 
 
+def _negate(e):
+    """logical negation in its simplest spelling"""
+    if isinstance(e, ast.UnaryOp) and isinstance(e.op, ast.Not):
+        return e.operand
+    if isinstance(e, ast.Compare) and len(e.ops) == 1:
+        flip = {ast.Is: ast.IsNot, ast.IsNot: ast.Is, ast.In: ast.NotIn, ast.NotIn: ast.In, ast.Eq: ast.NotEq, ast.NotEq: ast.Eq}
+        for a, b in flip.items():
+            if isinstance(e.ops[0], a):
+                return ast.Compare(left=e.left, ops=[b()], comparators=e.comparators)
+    return ast.UnaryOp(op=ast.Not(), operand=e)
+
+
+def _is_len_pos(t):
+    return isinstance(t, ast.Compare) and len(t.ops) == 1 and _is_call(t.left, "len") and isinstance(t.comparators[0], ast.Constant) \
+        and ((isinstance(t.ops[0], ast.Gt) and t.comparators[0].value == 0) or (isinstance(t.ops[0], ast.NotEq) and t.comparators[0].value == 0)
+             or (isinstance(t.ops[0], ast.GtE) and t.comparators[0].value == 1)) and type(t.comparators[0].value) is int
+
+
+def _eq_chain(s):
+    """(E, [(const, body)], else-body) for `if E == c1: .. elif E == c2: .. [else: ..]` with one pure E and distinct constants (>= 2)"""
+    branches, expr, cur = [], None, s
+    while True:
+        t = cur.test
+        if not (isinstance(t, ast.Compare) and len(t.ops) == 1 and isinstance(t.ops[0], ast.Eq) and isinstance(t.comparators[0], ast.Constant)
+                and isinstance(t.comparators[0].value, (int, str)) and not isinstance(t.comparators[0].value, bool) and _pure(t.left)):
+            return None
+        if expr is None:
+            expr = t.left
+        elif ast.dump(expr) != ast.dump(t.left):
+            return None
+        branches.append((t.comparators[0].value, cur.body))
+        if len(cur.orelse) == 1 and isinstance(cur.orelse[0], ast.If):
+            cur = cur.orelse[0]
+            continue
+        tail = cur.orelse
+        break
+    if len(branches) < 2 or len({repr(c) for c, _ in branches}) != len(branches):
+        return None
+    return expr, branches, tail
+
+
 def _sink(iff, t, default, use):
     """R8 helper: a copy of `iff` in which every path ends with `use` instantiated by the value t has on that path; None when t is
     assigned anywhere but as the last statement of a branch (or inside a loop / try / with)"""
@@ -207,10 +261,45 @@ def _inline_in(stmts, func):
             continue
         # R5b: if C: t = A else: t = B  ->  t = A if C else B
         if isinstance(s, ast.If) and len(s.body) == 1 and len(s.orelse) == 1 and all(
-                isinstance(b, ast.Assign) and len(b.targets) == 1 and isinstance(b.targets[0], ast.Name) for b in (s.body[0], s.orelse[0])) \
-                and s.body[0].targets[0].id == s.orelse[0].targets[0].id and _loads(s.test, s.body[0].targets[0].id) == 0:
-            stmts[i] = ast.Assign(targets=[ast.Name(id=s.body[0].targets[0].id, ctx=ast.Store())],
+                isinstance(b, ast.Assign) and len(b.targets) == 1 and isinstance(b.targets[0], (ast.Name, ast.Subscript, ast.Attribute))
+                for b in (s.body[0], s.orelse[0])) \
+                and ast.dump(s.body[0].targets[0]) == ast.dump(s.orelse[0].targets[0]) \
+                and not (isinstance(s.body[0].targets[0], ast.Name) and _loads(s.test, s.body[0].targets[0].id) > 0) \
+                and (isinstance(s.body[0].targets[0], ast.Name) or _pure(s.body[0].targets[0])):
+            stmts[i] = ast.Assign(targets=[s.body[0].targets[0]],
                                   value=_Expr().visit(ast.IfExp(test=s.test, body=s.body[0].value, orelse=s.orelse[0].value)), lineno=s.lineno)
+            continue
+        # R5c: if C: assert A, M  ->  assert not C or A, M
+        if isinstance(s, ast.If) and not s.orelse and len(s.body) == 1 and isinstance(s.body[0], ast.Assert):
+            stmts[i] = ast.Assert(test=ast.BoolOp(op=ast.Or(), values=[_negate(s.test), s.body[0].test]), msg=s.body[0].msg)
+            continue
+        # R5d: a non-emptiness test spelled with len
+        if isinstance(s, ast.If) and _is_len_pos(s.test):
+            s.test = s.test.left.args[0]
+        # R5e: exclusive equality branches ordered by their constant
+        if isinstance(s, ast.If):
+            chain = _eq_chain(s)
+            if chain is not None:
+                expr, branches, tail = chain
+                keyed = sorted(branches, key=lambda b: repr(b[0]))
+                if [b[0] for b in keyed] != [b[0] for b in branches]:
+                    node = list(tail)
+                    for c, body in reversed(keyed):
+                        node = [ast.If(test=ast.Compare(left=copy.deepcopy(expr), ops=[ast.Eq()], comparators=[ast.Constant(value=c)]), body=body, orelse=node)]
+                    stmts[i] = node[0]
+                    continue
+        # R5h: a return that follows an if / else made of simple assignments only moves into both branches
+        if isinstance(s, ast.If) and s.orelse and i + 1 < len(stmts) and isinstance(stmts[i + 1], ast.Return) \
+                and all(isinstance(b, ast.Assign) and len(b.targets) == 1 and isinstance(b.targets[0], ast.Name) for b in s.body + s.orelse):
+            ret = stmts[i + 1]
+            stmts[i] = ast.If(test=s.test, body=s.body + [copy.deepcopy(ret)], orelse=s.orelse + [copy.deepcopy(ret)])
+            del stmts[i + 1]
+            continue
+        # R5g: the else of a branch that cannot fall through is ordinary following code
+        if isinstance(s, ast.If) and s.orelse and s.body and isinstance(s.body[-1], (ast.Return, ast.Raise, ast.Continue, ast.Break)):
+            rest = s.orelse
+            stmts[i] = ast.If(test=s.test, body=s.body, orelse=[])
+            stmts[i + 1:i + 1] = rest
             continue
         # R8: t = None ; if ..: (.. t = E as the last statement of some branches ..) ; S(t)   with t read only in S
         #     ->  the if with S[t := E] in place of the assignments and S[t := None] at the end of the other branches
@@ -247,8 +336,12 @@ def _inline_in(stmts, func):
                 zone, slot = nxt, None
             else:
                 zone, slot = None, None
-            if zone is not None and _stores(func, t) == 1 and _loads(func, t) == _loads(zone, t) > 0 and _pure(s.value) \
-                    and _stores(nxt, t) == 0:
+            single = _stores(func, t) == 1 and _loads(func, t) == _loads(zone, t) > 0 if zone is not None else False
+            # before a return the name is dead afterwards, however often it is bound on other paths
+            dead_after = zone is not None and isinstance(nxt, ast.Return) and _loads(zone, t) > 0 \
+                and not any(isinstance(n, (ast.Global, ast.Nonlocal)) and t in n.names for n in ast.walk(func)) \
+                and not any(isinstance(n, ast.arg) and n.arg == t for n in ast.walk(func))
+            if zone is not None and (single or dead_after) and _pure(s.value) and _stores(nxt, t) == 0:
                 new = _Subst(t, s.value).visit(zone)
                 if slot is not None:
                     setattr(nxt, slot, new)
@@ -357,3 +450,10 @@ def fold(node, mapping):
                     return ast.Name(id=mapping[t], ctx=ast.Load())
             return super().generic_visit(n)
     return F().visit(copy.deepcopy(node)), count
+
+
+def canon_stmt_text(text, args="self, *a, **k"):
+    """normalised text of a statement block given as text (for units that compare one block with an expected text)"""
+    body = "\n".join("    " + l for l in text.split("\n"))
+    tree = normalize(ast.parse(f"def f({args}):\n{body}\n"))
+    return "\n".join(ast.unparse(x) for x in next(_functions(tree)).body)
